@@ -103,7 +103,10 @@ CHECKS["C20"] = ("model_checking",
     "variants and status codes 100..999 on the real code, judged by TLC",
     "Table property: the specification acts as a transcribed oracle. Every status-named constructor, every HttpError "
     "variant (payloads with paths and CR/LF) mapped to a response, serialised and read back, and every status 100..999 "
-    "through a loopback HttpConn are checked against Status.tla; Conn.tla's FiveXXCloses is model-checked.",
+    "through a loopback HttpConn (with and without handler-supplied connection / keep-alive fields) are checked against "
+    "Status.tla; Conn.tla's FiveXXCloses is model-checked. Builder.tla (the whole response builder: constructors, with_* "
+    "modifiers, ContentType texts) is bound by builder-gen: a status-named constructor with the wrong code is a violation, "
+    "any other discrepancy is specification beyond this property and is reported in the evidence as a note.",
     "Trusted: TLC; the constructor list is re-derived from response.rs on each run and unknown constructors are "
     "reported as uncovered.", "4 C20")
 
